@@ -67,10 +67,11 @@ def union_programs(draw, cfg):
         if mapping is None and chance(draw, 0.45):
             # default mapping read from a Literal field of each alternative whose ALIAS is the discriminator property
             # (its Python name differs)
+            multi = chance(draw, 0.5)  # several keys for one class: Literal["k0", "k0b"]
             for j, i in enumerate(idxs):
-                g.prog["classes"][i]["fields"].append({"n": f"tag_{j}", "t": {"k": "lit", "values": [f"k{j}"]}, "alias": alias, "no_override": True,
-                                                        "default": {"c": ["str", f"k{j}"]}})
-            disc["literal_field"] = True
+                g.prog["classes"][i]["fields"].append({"n": f"tag_{j}", "t": {"k": "lit", "values": [f"k{j}"] + ([f"k{j}b"] if multi else [])}, "alias": alias,
+                                                        "no_override": True, "default": {"c": ["str", f"k{j}"]}})
+            disc["literal_field"] = "multi" if multi else True
         g.prog["root"] = {"k": "union", "alts": alts, "disc": disc}
         return g.prog
     if mode < 35:
@@ -125,7 +126,10 @@ def disc_keys(prog, t):
     if disc.get("mapping"):
         return {key: i for key, i in disc["mapping"].items()}
     if disc.get("literal_field"):
-        return {f"k{j}": j for j in range(len(t["alts"]))}
+        keys = {f"k{j}": j for j in range(len(t["alts"]))}
+        if disc["literal_field"] == "multi":
+            keys.update({f"k{j}b": j for j in range(len(t["alts"]))})
+        return keys
     return {prog["classes"][a["i"]]["name"]: j for j, a in enumerate(t["alts"])}
 
 
@@ -251,6 +255,8 @@ def _evaluate_disc(case, ctx, b, prog, opts):
         if "crash" in (o_without[0], o_with[0]):
             ctx.h("crash_routed_to_C03")
             continue
+        if root["disc"].get("literal_field"):
+            o_without = o_with  # the discriminator property is a declared (Literal) field of the alternative: it consumes the tag
         sig = {**node, "flatten": any(f.get("agg") == "flatten" for f in cd["fields"]), "open_fields": _has_open_fields(cd), "datum": item.get("tag")}
         if _has_open_fields(cd):
             # the tag may legitimately end up in (or be rejected by) a pattern / additional-properties field: only the
@@ -288,7 +294,8 @@ def _evaluate(case, ctx, b, prog, opts):
     kw = tdcase.api_kwargs(opts)
     root = prog["root"]
     tp = b.root
-    alts = [a for a in root["alts"] if a["k"] not in ("unsup", "undefined")]
+    # (typing flattens nested unions: Union[A, Optional[B]] is Union[A, B, None], tried in that order)
+    alts = [a for a in M.union_alts(root) if a["k"] not in ("unsup", "undefined")]
     alt_tps = [b.typeof(a) for a in alts]
     try:
         method = deserialization_method(tp, **kw)
